@@ -63,6 +63,16 @@ RHS_5 = ((), (("1", 1),), (("1", 2),), (("p", 1),), (("p", 1), ("q", 1)))   # 0 
 RHS_EXTRA = ((("a0", 1),), (("p", 2), ("1", -1)), (("p", -1), ("q", 2), ("1", 3)))  # a[0] 2p-1 ..
 RHS_3 = ((), (("1", 1),), (("p", 1),))               # 0 1 p (systems with 3 equations / unknowns)
 UNKNOWNS = ("x", "y", "z")
+# parameters / unknowns that print alike (family sys-alike): per pair (P, Q) of distinct expressions
+# with str(P) == str(Q) the right-hand sides  P, Q, P + 2Q, 2P - Q + 1
+ALIKE_PAIRS = (("a0", "a0v"), ("sf", "sfv"))
+RHS_ALIKE = tuple(r for pp, qq in ALIKE_PAIRS for r in (
+    ((pp, 1),), ((qq, 1),), ((pp, 1), (qq, 2)), ((pp, 2), (qq, -1), ("1", 1))))
+ALIKE_UNKNOWNS = ("a[0]", "s.f")                      # unknowns named like the parameters of
+RHS_ALIKE_U = ((("a0", 1),), (("sf", 1),), (("a0", 1), ("sf", 2)),        # these right-hand sides
+               (("a0", 2), ("sf", -1), ("1", 1)))                          # a[0], s.f, a[0]+2s.f ..
+ALIKE_LEAVES = (SUB_A0, V("a[0]"), ("Lookup", V("s"), ("str", "f")), V("s.f"), V("x"), C(2))
+ALIKE_TARGETS = (None, (), ("a[0]",), ("s.f",), ("a[0]", "s.f"), ("x",))
 DEMAND_ACCEPTANCE = False    # the statement does not say that a uniquely and integrally solvable
 #                              system must be accepted; refusals are only counted
 #                              (sys_refused_solvable, 0 within the bounds on the fixed tree).  Set
@@ -503,7 +513,10 @@ class C15(Check):
         "such node above, between or below two of + * / **; same target sets; judged on the exact "
         "values at every point of {-2..3}^atoms (a non-zero second finite difference in the "
         "targets at a grid point = not affine = must raise; a returned result must reproduce "
-        "the value at every grid point). Solver (family sys): every integer system of shape (eqs "
+        "the value at every grid point). cc-alike: leaves that PRINT alike (subscript a[0] and a "
+        "variable named 'a[0]', look-up s.f and a variable named 's.f', plus x, 2) in every Sum2, "
+        "Sum3, Product2, Quotient and c*A+B, with target_names None, [], ['a[0]'], ['s.f'], both, "
+        "['x']. Solver (family sys): every integer system of shape (eqs "
         "x unknowns) 1x1 (coefficients -3..3), 2x1, 1x2, 2x2 (coefficients -2..2) with right-hand "
         "sides from {0,1,2,p,p+q} (1x1/2x1 also a[0], 2p-1, -p+2q+3), 3x2, 2x3 and (thorough) 3x3 "
         "with coefficients -1..1 and right-hand sides from {0,1,p}; these sets are closed under "
@@ -511,7 +524,11 @@ class C15(Check):
         "sides swapped; one unknown kept left; everything left and 0 right; every unknown, "
         "parameter and the constant on BOTH sides) with the unknown list in every order (quick "
         "2x2: 2 forms, 3x2/2x3: 1 form; thorough 3x3: 1 form + a both-sides family in all 6 "
-        "orders). The only hash-seed dependent step is the order of the solver's *set of "
+        "orders). sys-alike: 1x1, 2x1 and 2x2 (coefficients -1..1) systems whose right-hand "
+        "sides combine two distinct parameters that print alike (P, Q, P+2Q, 2P-Q+1 for a[0] / "
+        "'a[0]' and s.f / 's.f'), and systems whose UNKNOWNS are named 'a[0]' and 's.f' with the "
+        "subscript a[0] and the look-up s.f as parameters; under every seed. "
+        "The only hash-seed dependent step is the order of the solver's *set of "
         "parameters*: the shapes whose systems can have two parameters (1x1, 2x1, 1x2, 2x2) are "
         "repeated under every listed PYTHONHASHSEED; the other shapes and the collector families "
         "(no set iteration on that code path) run under the first seed only. "
@@ -535,6 +552,9 @@ class C15(Check):
         "system; such refusals are counted (sys_refused_solvable), not reported (none occurs "
         "within the bounds once the two proposed fixes are applied)",
         "expressions without a value anywhere (division by the zero function) are skipped",
+        "atoms of the oracles are told apart by structure (a[0] the subscript is 'Subscript(a, 0)',"
+        " the variable named 'a[0]' is 'a[0]'), never by printed form; a look-up leaf is only used "
+        "with target sets that mention neither its aggregate nor its attribute name",
         "operators outside + * / ** have no exact rational-function value: non-affinity is decided "
         "by a non-zero second difference on the integer grid {-2..3}^atoms (sound; a tree whose "
         "differences vanish on the grid is not required to raise), a returned result is compared "
@@ -560,8 +580,10 @@ class C15(Check):
                 ("cc-nary3", lambda: self.gen_cc_nary3(cc_leaves)),
                 ("cc-foreign-depth2", lambda: self.gen_ccf_depth2(quick)),
                 ("cc-foreign-nest", lambda: self.gen_ccf_nest(quick)),
+                ("cc-alike", self.gen_cc_alike),
             ]
         fams.append(("sys", lambda: self.gen_systems(quick, first)))
+        fams.append(("sys-alike", lambda: self.gen_sys_alike(quick)))
         return fams
 
     def gen_systems(self, quick, first):
@@ -633,8 +655,38 @@ class C15(Check):
             for _, s in gen.nest3(gps, parents, kids, FOREIGN_FILL):
                 yield ("cc", s, mode)
 
-    def gen_sys(self, m, n, coeffs, rhs_pool, forms, all_orders=True, rhs_combos=None):
-        names = UNKNOWNS[:n]
+    def gen_sys_alike(self, quick):
+        """Systems whose parameters (and, second half, unknowns) print alike."""
+        same_pair = [(i, j) for i in range(len(RHS_ALIKE)) for j in range(len(RHS_ALIKE))
+                     if i // 4 == j // 4]
+        forms2 = ("std", "split") if quick else O.FORMS
+        yield from self.gen_sys(1, 1, COEFF_1, RHS_ALIKE, O.FORMS)
+        yield from self.gen_sys(2, 1, COEFF_2, RHS_ALIKE, ("std", "split"), rhs_combos=same_pair)
+        yield from self.gen_sys(2, 2, COEFF_3, RHS_ALIKE, forms2, rhs_combos=same_pair)
+        # unknowns named "a[0]" and "s.f" next to the parameters a[0] (subscript) and s.f (look-up)
+        yield from self.gen_sys(1, 1, COEFF_1, RHS_ALIKE_U, O.FORMS, names=ALIKE_UNKNOWNS)
+        yield from self.gen_sys(2, 1, COEFF_2, RHS_ALIKE_U, ("std", "split"),
+                                names=ALIKE_UNKNOWNS)
+        yield from self.gen_sys(2, 2, COEFF_3, RHS_ALIKE_U, forms2, names=ALIKE_UNKNOWNS)
+
+    def gen_cc_alike(self):
+        """Linear forms over leaves that print alike (a[0] / `a[0]`, s.f / `s.f`)."""
+        for lf in ALIKE_LEAVES:
+            yield ("cc", lf, "alike")
+        for op in ("Sum", "Product", "Quotient"):
+            for a in ALIKE_LEAVES:
+                for b in ALIKE_LEAVES:
+                    yield ("cc", _binary(op, a, b), "alike")
+        for combo in itertools.product(ALIKE_LEAVES, repeat=3):
+            yield ("cc", ("Sum", T(*combo)), "alike")
+        for a in ALIKE_LEAVES:
+            for b in ALIKE_LEAVES:
+                for c in (C(2), C(-1)):
+                    yield ("cc", ("Sum", T(("Product", T(c, a)), b)), "alike")
+
+    def gen_sys(self, m, n, coeffs, rhs_pool, forms, all_orders=True, rhs_combos=None,
+                names=UNKNOWNS):
+        names = names[:n]
         orders = list(itertools.permutations(names)) if all_orders else [names]
         if rhs_combos is None:
             rhs_combos = itertools.product(range(len(rhs_pool)), repeat=m)
@@ -669,6 +721,8 @@ class C15(Check):
             if mode == "all":
                 cases = [(t, c) for t in ALL_TARGETS
                          for c in (CONTAINERS if t is not None else ("list",))]
+            elif mode == "alike":
+                cases = [(t, "list") for t in ALIKE_TARGETS]
             elif mode == "q":
                 cases = [(t, "list") for t in QUICK_TARGETS]
             else:
